@@ -18,12 +18,12 @@ import (
 
 // C24 — FS responses: ranges, validators, bodies.
 var (
-	c24Once    sync.Once
-	c24Dir     string
-	c24Handler fasthttp.RequestHandler
+	c24Once     sync.Once
+	c24Dir      string
+	c24Handler  fasthttp.RequestHandler
 	c24HandlerZ fasthttp.RequestHandler
-	c24Sizes   = []int{0, 1, 2, 100, 8191, 8192, 8193, 20000}
-	c24Mtime   = time.Date(2024, 3, 5, 12, 30, 15, 600_000_000, time.UTC)
+	c24Sizes    = []int{0, 1, 2, 100, 8191, 8192, 8193, 20000}
+	c24Mtime    = time.Date(2024, 3, 5, 12, 30, 15, 600_000_000, time.UTC)
 )
 
 func c24Content(n int) []byte {
@@ -60,9 +60,9 @@ func init() {
 	Register(&Prop{
 		ID: "C24",
 		Rule: "range: Range header values from a grammar (first-last, first-, -suffix, boundary ints around the content length, malformed) x content lengths; " +
-			"fs: GET/HEAD x file sizes {0,1,2,100,8191,8192,8193,20000} x Range x If-Modified-Since (before/equal/after mtime, sub-second) x Accept-Encoding against a real temp tree; " +
+			"fs: GET/HEAD x file sizes {0,1,2,100,8191,8192,8193,20000} x Range x If-Modified-Since (before/equal/after mtime, sub-second) x Accept-Encoding against a real temp tree (every HEAD is also served as a GET and the representation headers compared); " +
 			"non-trivial = range syntactically 'bytes=' with a dash (range) / request carrying a Range or IMS header (fs); distinct = distinct input",
-		Parallel: false,
+		Parallel:    false,
 		Assumptions: []string{"the OS file system and the gzip codec are real, not modelled; the response-level monitor is an executable oracle in the harness (DESIGN.md §6 C24)"},
 		Build: func(kind string, a [][]byte) *Case {
 			switch kind {
@@ -136,6 +136,24 @@ func init() {
 				if imsNotNewer {
 					ims = B("1")
 				}
+				// HEAD carries the same headers as GET: serve the same request as a GET and compare the representation headers
+				headDiff := ""
+				if method == "HEAD" {
+					var ctx2 fasthttp.RequestCtx
+					var req2 fasthttp.Request
+					req.CopyTo(&req2)
+					req2.Header.SetMethod("GET")
+					ctx2.Init(&req2, nil, nopLogger{})
+					h(&ctx2)
+					r2 := &ctx2.Response
+					view := func(r *fasthttp.Response) string {
+						return fmt.Sprintf("status=%d Content-Encoding=%q Content-Length=%d Content-Range=%q Content-Type=%q Last-Modified=%q Vary=%q", r.StatusCode(),
+							r.Header.Peek("Content-Encoding"), r.Header.ContentLength(), r.Header.Peek("Content-Range"), r.Header.ContentType(), r.Header.Peek("Last-Modified"), r.Header.Peek("Vary"))
+					}
+					if x, y := view(resp), view(r2); x != y {
+						headDiff = fmt.Sprintf("HEAD: %s; GET: %s", x, y)
+					}
+				}
 				impl := fmt.Sprintf("%d", status)
 				return &Case{Lines: []string{Line("fsdecision", a[0], ims, rng)}, Impl: fmt.Sprintf("%d cr=%q ce=%q cl=%d bodylen=%d", status, cr, ce, clh, len(body)),
 					Nontrivial: len(rng) > 0 || imsDelta != 9999, Tags: []string{"fs", "fs-" + impl, "fs-" + method},
@@ -161,6 +179,9 @@ func init() {
 							return fail(key, fmt.Sprintf("expected status %d", wantStatus))
 						}
 						isHead := method == "HEAD"
+						if headDiff != "" {
+							return fail("fs-head-differs-from-get", headDiff)
+						}
 						switch status {
 						case 206:
 							s, _ := strconv.Atoi(f2)
